@@ -286,6 +286,15 @@ pub fn gen_link_world(seed: u64) -> LinkWorld {
             files[i].imports.push((usize::MAX, "/missing/file".into()));
         }
         r.shuffle(&mut files[i].imports);
+        if files[i].imports.len() >= 2 && r.chance(0.35) {
+            // the same target imported again later (possibly spelled differently): the later one wins
+            let k = r.below(files[i].imports.len() - 1);
+            let j = files[i].imports[k].0;
+            if j != usize::MAX {
+                let s = spell(&mut r, &paths[i], &paths[j], ".wxml");
+                files[i].imports.push((j, s));
+            }
+        }
         for (si, s) in sp.iter().enumerate() {
             if r.chance(0.5) {
                 let spelled = spell(&mut r, &paths[i], s, ".wxs");
